@@ -99,3 +99,26 @@ func heldByUs(proto string, port int) (found, ours bool) {
 	}
 	return true, false
 }
+
+// holder says who holds a port that a probe found in use: "ours" (a socket of this process: galaxy's or, never at
+// this point, the harness's), "other" (listed in /proc/net, not one of our fds), "gone" (free again, nobody listed)
+// or "unlisted" (still in use, but no listening/bound entry in /proc/net: e.g. a TCP socket another process has
+// bound but not put into LISTEN). galaxy's own sockets always listen, so they are always listed; /proc/net is not
+// read atomically, hence the retries before concluding that a socket is not ours.
+func holder(proto string, port int) string {
+	listed := false
+	for try := 0; try < 3; try++ {
+		found, ours := heldByUs(proto, port)
+		if ours {
+			return "ours"
+		}
+		listed = listed || found
+	}
+	if listed {
+		return "other"
+	}
+	if probe(proto, port) == "free" {
+		return "gone"
+	}
+	return "unlisted"
+}
